@@ -18,9 +18,15 @@
         counts   = the counts passed to Pool.Get, in order (same at every party)
         recorded = (((a b c) per word) per Get) per party
         bsizes   = batch sizes in words used to re-chunk every party's stream
-     output = (wordsPerGet same valid nwords outs)                         *)
+     output = (wordsPerGet same valid nwords outs)
+
+   mode 2 (pool synchronisation, PoolSync.v with the constants of the Go code):
+     input  = (2 need)   need = words of one Get issued after the generator
+                         has filled the pool and parked
+     output = (words in the pool when the generator parks,
+               1 if the Get returns under the round-robin schedule)        *)
 From Coq Require Import ZArith NArith List Bool Arith.
-From Mpc Require Import Gen.Consts Base.Sx Base.Codec Circuit.Circuit Circuit.RunC01 Gmw.Gmw Gmw.Pool.
+From Mpc Require Import Gen.Consts Base.Sx Base.Codec Circuit.Circuit Circuit.RunC01 Gmw.Gmw Gmw.Pool Gmw.PoolSync.
 Import ListNotations.
 Local Open Scope nat_scope.
 
@@ -83,8 +89,18 @@ Fixpoint replay_gets (counts : list nat) (pool : triples) (pend : list triples) 
       end
   end.
 
+(* fill (the generator runs alone until it parks), then one Get *)
+Definition run_sync (need : nat) : sx :=
+  let filled := exec go_lwm go_bsz false (repeat LGen 100) init in
+  let s := exec go_lwm go_bsz false [LGet need] filled in
+  let s' := run_rr go_lwm go_bsz false 8 s in
+  SL [ ofnat (words filled);
+       ofB (match gst filled with GWaiting => true | _ => false end);
+       ofB (match cst s' with CIdle => true | _ => false end) ].
+
 Definition run_c10 (inp : sx) : sx :=
   let mode := getnat (nthx 0 inp) in
+  if mode =? 2 then run_sync (getnat (nthx 1 inp)) else
   let c := circuit_of_sx (nthx 1 inp) (nthx 2 inp) in
   let isz := getLnat (nthx 3 inp) in
   let n := length isz in
